@@ -597,6 +597,71 @@ pub fn run_codec(scratch: &Path, out: &mut Out, tier: &str, seed: u64) {
         out.emit(&line);
         let _ = std::fs::remove_file(&p);
     }
+    // ---- Cas::open on crafted `index` files (String keys; all keys ASCII unless flagged)
+    let opendir = scratch.join("openidx");
+    let mut crafted: Vec<(Vec<u8>, bool)> = vec![(vec![], false)];
+    for (i, enc) in valid_snaps.iter().enumerate() {
+        if i % (if q { 4 } else { 1 }) != 0 {
+            continue;
+        }
+        let ascii = |b: &Vec<u8>| -> Vec<u8> {
+            // the snapshots above use key bytes 0, 1, 255: map 255 to 'z' so that every key is valid UTF-8
+            let mut v = b.clone();
+            let n = u32::from_le_bytes(v[8..12].try_into().unwrap()) as usize;
+            let mut p = 12;
+            for _ in 0..n {
+                let kl = u32::from_le_bytes(v[p..p + 4].try_into().unwrap()) as usize;
+                for x in v[p + 4..p + 4 + kl].iter_mut() {
+                    if *x == 255 {
+                        *x = b'z';
+                    }
+                }
+                p += 4 + kl + 40;
+            }
+            v
+        };
+        let a = ascii(enc);
+        crafted.push((a.clone(), false));
+        for cut in [1usize, 8, 11, 12, a.len().saturating_sub(1), a.len().saturating_sub(9)] {
+            if cut < a.len() {
+                crafted.push((a[..cut].to_vec(), false));
+            }
+        }
+        let mut ext = a.clone();
+        ext.extend([9, 9, 9]);
+        crafted.push((ext, false));
+        if a.len() > 12 {
+            let mut m = a.clone();
+            m[8] = m[8].wrapping_add(1); // one more entry announced than present
+            crafted.push((m, false));
+            let mut m = a.clone();
+            m[11] = 0xff; // huge entry count
+            crafted.push((m, false));
+        }
+        crafted.push((enc.clone(), enc.windows(1).any(|w| w[0] == 255) && enc.len() > 12)); // may hold non-UTF-8 key bytes
+    }
+    for (bytes, maybe_bad_utf8) in crafted {
+        let _ = std::fs::remove_dir_all(&opendir);
+        std::fs::create_dir_all(&opendir).unwrap();
+        std::fs::write(opendir.join("index"), &bytes).unwrap();
+        let r = catch_unwind(|| {
+            Cas::<String>::open_with_recover(&opendir, Config { fail_on_integrity_errors: false, ..Default::default() })
+                .map(|(c, _)| c.read_index_state().len())
+        });
+        let (st, n) = match r {
+            Err(_) => ("panic", 0),
+            Ok(Err(_)) => ("err", 0),
+            Ok(Ok(n)) => ("ok", n),
+        };
+        // are all key bytes of the decodable entries valid UTF-8? (computed here: UTF-8 is not transcribed)
+        let utf8_ok = match verif::codec_deserialize_index(&bytes) {
+            Ok((m, _)) => m.keys().all(|k| std::str::from_utf8(k).is_ok()),
+            Err(_) => true,
+        };
+        let _ = maybe_bad_utf8;
+        out.emit(&json!({"ev": "open_index", "bytes": bytes, "st": st, "n": n, "utf8_ok": utf8_ok}));
+    }
+    let _ = std::fs::remove_dir_all(&opendir);
     // ---- key type encodings
     key_roundtrip::<String>("String", vec![String::new(), "a".into(), "é€".into(), "x".repeat(9000)], out);
     key_roundtrip::<Vec<u8>>("Vec<u8>", vec![vec![], vec![0], vec![255; 300]], out);
